@@ -10,7 +10,7 @@ from . import nf_common, nfq
 
 MANIFEST = {
     "text": 'Table and pairing rules on the serializer: the escape table is sound and reversible (every needle has a replacement that the parser\'s own entity table maps back; \'&\',\'<\' in text and \'&\',\'"\' in attributes are needles), no byte is dropped by the escape loop, attribute values are written through the attribute escaper between the quote bytes, text is raw only under the raw-text element set and that set equals the parser\'s, \'this is an HTML element\' is decided by namespace everywhere, start/end pairs push/pop once; plus equality of every serializer function with its reviewed normal form. The serializer skips children for exactly the standard\'s 18 void-like elements (R07.7); the parser decodes every reference ending in \';\' also in attribute values, so the serializer\'s replacements map back (R07.8).',
-    "note": "Decides R07.1-R07.8 (necessary conditions of 'no text or attribute escapes its context' and 'inner == outer'). Not decided: the re-parse itself, RcDom traversal order (C20). Also decided: serialize() hands the caller's options to the serializer unchanged (R07.9). Round 6: end of input inside a character reference (R07.12), rcdom Serialize walks node.children for root and inner element alike (R07.13). Round 7: is_marker_or_open + formatting end tags run the adoption agency (R07.14). Round 8: R07.15 = R14.12 (a name still being matched waits for more input when a chunk ends).",
+    "note": "Decides R07.1-R07.8 (necessary conditions of 'no text or attribute escapes its context' and 'inner == outer'). Not decided: the re-parse itself, RcDom traversal order (C20). Also decided: serialize() hands the caller's options to the serializer unchanged (R07.9). Round 6: end of input inside a character reference (R07.12), rcdom Serialize walks node.children for root and inner element alike (R07.13). Round 7: is_marker_or_open + formatting end tags run the adoption agency (R07.14). Round 8: R07.15 = R14.12 (a name still being matched waits for more input when a chunk ends). R07.16: escape loop advances by what it accounted for, noscript raw iff scripting, start tag layout.",
     "technique": "table equality against the parser's own tables + path rules over function normal forms",
 }
 LEVEL = "other"
